@@ -457,6 +457,19 @@ class Actor:
         self.trace: list = []
         self._send = None
 
+    def holds_sqlite_write(self) -> bool:
+        """True while one of this actor's connections is inside a write transaction. Such an actor is not preempted:
+        other writers would only wait for it and WAL readers see the pre-transaction snapshot either way, so no behaviour
+        is lost, and atomic (non-yieldified) sections of other actors never hit a spurious 'database is locked'."""
+        for (a, c) in OPEN_CONNS:
+            if a is self:
+                try:
+                    if c._conn.in_transaction:
+                        return True
+                except Exception:
+                    pass
+        return False
+
     def step(self) -> str:
         """Advance to the next preemption point. Returns 'L' (a step was taken), 'B' (blocked), 'D' (done)."""
         CURRENT[0] = self
@@ -531,7 +544,9 @@ def run_schedule(actors: list[Actor], first, slices: list, crash: tuple | None =
             cur = nxt
         a = actors[cur]
         taken = 0
-        while runnable(a) and sym_lt(taken, k):
+        while runnable(a):
+            if not sym_lt(taken, k) and not a.holds_sqlite_write():
+                break
             if check_crash(cur):
                 break
             r = a.step()
